@@ -66,7 +66,8 @@ class Recorder(object):
 
 
 def clamp(val):
-    return min(2 ** 31 - 1, val)
+    ''' (kept as a name only: reported values are compared with the announced ones as they are) '''
+    return val
 
 
 def check_negotiation(run, cfg_a, cfg_b, obs):
